@@ -1109,6 +1109,8 @@ class SymMixin:
             self.may_raise(run, "ValueError", site, "int() of a non-numeric value")
             return Sym(("int", kterm(v)), "int")
         if n == "float":
+            if len(a) == 1 and not kw and isinstance(a[0], Sym) and self.kind_of(a[0], run) == "float":
+                return a[0]  # float() of a float is that value
             return Sym(("float", ta), "float", inexact=True)
         if n == "str":
             return Sym(("str", ta), "str")
